@@ -990,6 +990,42 @@ def _native_layouts(tier="quick", seed=0):
         bad = bad or _check_slide_against_layout(prs2, layout)
         evals += 1
     record("C13.native.default_deck_every_layout_interleaved", bad, "11 layouts x 2 rounds + reopen: mirror property holds")
+    # a deck whose relationship ids have a gap, the highest being <count>+1 (a slide was deleted by another producer): the slides that
+    # exist stay what they are, the new one comes last
+    import re as _re
+    import zipfile
+
+    bad = None
+    base_ = Presentation()
+    for i_ in range(3):
+        base_.slides.add_slide(base_.slide_layouts[i_ % 2]).shapes.add_textbox(0, 0, 100, 100).text_frame.text = "slide %d" % (i_ + 1)
+    b_ = io.BytesIO()
+    base_.save(b_)
+    zin = zipfile.ZipFile(io.BytesIO(b_.getvalue()))
+    rels_ = zin.read("ppt/_rels/presentation.xml.rels").decode()
+    n_rels = len(_re.findall(r"<Relationship ", rels_))
+    for victim in (1, 2, 3):
+        m_ = _re.search(r'Id="(rId\d+)"[^>]*Target="slides/slide%d.xml"|Target="slides/slide%d.xml"[^>]*Id="(rId\d+)"' % (victim, victim), rels_)
+        old_id = m_.group(1) or m_.group(2)
+        new_id = "rId%d" % (n_rels + 1)
+        out_ = io.BytesIO()
+        with zipfile.ZipFile(out_, "w", zipfile.ZIP_DEFLATED) as zout:
+            for info in zin.infolist():
+                data_ = zin.read(info.filename)
+                if info.filename in ("ppt/_rels/presentation.xml.rels", "ppt/presentation.xml"):
+                    data_ = _re.sub(r'"%s"' % old_id, '"%s"' % new_id, data_.decode()).encode()
+                zout.writestr(info.filename, data_)
+        prs_g = Presentation(io.BytesIO(out_.getvalue()))
+        texts_before = [[sh.text_frame.text for sh in sl.shapes if sh.has_text_frame] for sl in prs_g.slides]
+        for layout in list(prs_g.slide_layouts)[:3]:
+            evals += 1
+            b = _check_slide_against_layout(prs_g, layout)
+            if b and not bad:
+                bad = "deck whose slide %d is related as %s (ids 1..%d otherwise): %s" % (victim, new_id, n_rels, b)
+        texts_after = [[sh.text_frame.text for sh in sl.shapes if sh.has_text_frame] for sl in prs_g.slides][: len(texts_before)]
+        if texts_after != texts_before and not bad:
+            bad = "deck whose slide %d is related as %s: after adding slides the first %d slides read %r, before %r" % (victim, new_id, len(texts_before), texts_after, texts_before)
+    record("C13.native.existing_slides_stay_when_relationship_ids_have_gaps", bad, "3-slide deck, one slide relationship renumbered to count+1")
     # generated layouts: every type, duplicate types, missing idx, vertical
     rnd = random.Random(seed)
     bad = None
